@@ -306,8 +306,14 @@ class Executor:
         """Symbolically execute the real function object `func`. Returns every path's outcome."""
         st = st or State()
         out = []
-        for st2, kind, val in self.call_function(func, st, list(args), dict(kwargs or {})):
-            out.append(Outcome(kind, val, st2))
+        try:
+            for st2, kind, val in self.call_function(func, st, list(args), dict(kwargs or {})):
+                out.append(Outcome(kind, val, st2))
+        except Unsupported:
+            raise
+        except (TypeError, AttributeError, KeyError, IndexError, ValueError, z3.Z3Exception, RecursionError) as e:
+            # the interpreter met a value/construct it has no semantics for: the code left the supported subset
+            raise Unsupported(f"interpreter: {type(e).__name__}: {e}") from e
         return out
 
     def source_of(self, func) -> tuple[ast.AST, dict, str]:
